@@ -123,7 +123,11 @@ func (p *Pool) get() (any, *byte) {
 		return nil, nil
 	}
 	it := p.items[pick]
-	copy(p.items[pick:], p.items[pick+1:])
+	// no copy()/append() here: runtime.slicecopy is race-instrumented even when
+	// called from a norace function, and this bookkeeping must stay invisible
+	for i := pick; i < n-1; i++ {
+		p.items[i] = p.items[i+1]
+	}
 	p.items[n-1] = poolItem{}
 	p.items = p.items[:n-1]
 	w.Stats.PoolReuse++
